@@ -277,6 +277,12 @@ def check_cfg(F, R, cfg):
     R.floor("C03.fieldset", I("EdwardsPoint aggregate sites inventoried"), n_agg, 7)
     R.floor("C03.fieldset.writes", I("field-wise writers"), n_fw, 1)
     formulas(F, R, I, a["variants"][0]["fields"][X]["ty"])
+    import formula_rules as FRs
+    ns = 0
+    for inst, f_, ok, msg in FRs.point_sums(F, r"edwards::EdwardsPoint"):
+        ns += 1
+        (R.ok if ok else R.viol)("C03.sum", I(inst), msg, *(() if ok else (F.loc(f_),)))
+    R.floor("C03.sum", I("Sum impls decided"), ns, 1)
 
     # ------------------------------------------------------------------ identity, negation, predicates
     idf = fn(None, self_ty="^%s$" % EP, trait=r"traits::Identity$", name="identity")
